@@ -573,12 +573,16 @@ func c12DerivedCache(c *Ctx, ri *registryInfo, accs []Access) {
 	}
 	reads, mutates := map[fo]bool{}, map[fo]bool{}
 	others := map[fo][]Access{}
+	registry := map[string]bool{}
 	for _, a := range accs {
 		if a.Init || a.Local || !ri.owners[a.Owner] {
 			continue
 		}
 		k := fo{a.Fn, a.Owner}
-		if ri.fields[a.Field] {
+		// (ri.fields also lists every slice member the registration API stores to — the order slices, but a cached list
+		// that registration resets as well; only maps and slices of plain keys are the registry proper here)
+		if ri.maps[a.Field] || ri.fields[a.Field] && !holdsEntries(a.Type) {
+			registry[a.Field] = true
 			if a.Write {
 				mutates[k] = true
 			} else {
@@ -597,7 +601,7 @@ func c12DerivedCache(c *Ctx, ri *registryInfo, accs []Access) {
 		}
 		wrote := false
 		for _, a := range os {
-			wrote = wrote || a.Write
+			wrote = wrote || a.Write && holdsEntries(a.Type)
 		}
 		if !wrote {
 			continue
@@ -609,7 +613,7 @@ func c12DerivedCache(c *Ctx, ri *registryInfo, accs []Access) {
 			validity[k.owner][a.Field] = true
 		}
 		for _, a := range accs {
-			if a.Fn == k.fn && a.Owner == k.owner && ri.fields[a.Field] {
+			if a.Fn == k.fn && a.Owner == k.owner && registry[a.Field] {
 				if source[k.owner] == nil {
 					source[k.owner] = map[string]bool{}
 				}
@@ -671,4 +675,26 @@ func c12DerivedCache(c *Ctx, ri *registryInfo, accs []Access) {
 					o, fname(cacheFn[o]), vs, a.Kind, a.Field, fname(a.Fn)))
 		}
 	}
+}
+
+// holdsEntries: a slice or map whose elements are (pointers to) structs or interfaces — derived entry data, as opposed to
+// a slice of names.
+func holdsEntries(t types.Type) bool {
+	var elem types.Type
+	switch x := t.Underlying().(type) {
+	case *types.Slice:
+		elem = x.Elem()
+	case *types.Map:
+		elem = x.Elem()
+	default:
+		return false
+	}
+	if p, ok := elem.Underlying().(*types.Pointer); ok {
+		elem = p.Elem()
+	}
+	switch elem.Underlying().(type) {
+	case *types.Struct, *types.Interface:
+		return true
+	}
+	return false
 }
